@@ -4,6 +4,9 @@
 //     generated operation sequences against the ban model below (tolerance windows, wall time is real);
 // (b) e2e_test.go: started p2p.Connections on distinct loopback IPs, misbehaving and legal traffic, then the ban
 //     consequences (score, disconnect, dials in both directions, expiry);
+//     three rate-limited procedures with their own limits (legal mixes over all of them across counter resets, one
+//     procedure over its limit right after an observed reset); multiconn_test.go: a peer with 2-3 simultaneous
+//     connections (after a ban none may remain);
 // (c) sync_test.go: generated valid and invalid sync requests against the real consensus/sync handlers of a harness
 //     consensus node (an invalid request gets the sender banned, a valid one never changes its score).
 package c18
